@@ -96,6 +96,47 @@ Section WithOracle.
     apply in_displaced; auto.
   Qed.
 
+  (** two containers whose contents are equal modulo the equalities the pass is run against are one
+      value after the pass: their ids are in one class of the union-find once the staged unions are
+      applied (the contents are filed once, hash-consing; colliding ids are unioned) *)
+  Theorem pass_merges b s e' us dirty chg : Good s -> run_pass b s = (e', us, dirty, chg) ->
+    exists p', uf_unions (cuf s) us = Ok p'
+      /\ (forall c v, In (c, v) (to_id (cenv s)) ->
+            exists v', In (rebuild_contents oracle (rep (cuf s)) c, v') (to_id e') /\ rep p' v' = rep p' v)
+      /\ (forall c1 v1 c2 v2, In (c1, v1) (to_id (cenv s)) -> In (c2, v2) (to_id (cenv s)) ->
+            rebuild_contents oracle (rep (cuf s)) c1 = rebuild_contents oracle (rep (cuf s)) c2 ->
+            rep p' v1 = rep p' v2).
+  Proof.
+    intros G E.
+    destruct (pass_step b s e' us dirty chg G E) as (p' & U & G' & _).
+    pose proof U as (Eu & _).
+    assert (T : forall c v, In (c, v) (to_id (cenv s)) ->
+              exists v', In (rebuild_contents oracle (rep (cuf s)) c, v') (to_id e') /\ rep p' v' = rep p' v).
+    { destruct s as [p e pend]. destruct G as [HI I Rl Pd]. simpl in *.
+      unfold run_pass in E. simpl in E. destruct b.
+      - unfold pass_inc in E.
+        destruct (inc_loop_track oracle (rep p) (fun x => rep_idem p x HI)
+                    (to_rebuild pend e) p e [] [] false HI I) as (p'' & us'' & E1 & U'' & T'').
+        + intros w H. split; [apply Rl; exact H|]. apply rootp_rep. apply Rl. exact H.
+        + rewrite E in *. cbn [fst snd app] in *. subst us''. rewrite Eu in U''. injection U'' as <-.
+          intros c v H. apply T''. destruct (changed (rep p) c) eqn:Ed.
+          * right. split; [exact H|].
+            unfold changed in Ed. apply existsb_exists in Ed as (x & Hx & Nx).
+            apply negb_true_iff in Nx. apply Nat.eqb_neq in Nx.
+            destruct (Pd c v x H Hx) as [R|Hp]; [contradiction|].
+            unfold to_rebuild. apply nodup_In. apply in_flat_map. exists x. split; [exact Hp|].
+            right. eapply (inv_idx e I); eauto. apply rids_iter. exact Hx.
+          * left. exists v. unfold rebuild_contents. rewrite Ed. auto.
+      - destruct (pass_full_track oracle p e e' us dirty chg HI I Rl E) as (p'' & U'' & T'').
+        rewrite Eu in U''. injection U'' as <-. exact T''. }
+    exists p'. split; [exact Eu|]. split; [exact T|].
+    intros c1 v1 c2 v2 H1 H2 Heq.
+    destruct (T c1 v1 H1) as (w1 & Hw1 & E1). destruct (T c2 v2 H2) as (w2 & Hw2 & E2).
+    rewrite Heq in Hw1.
+    assert (w1 = w2) by (eapply NoDup_fst_fun; [apply (inv_keys _ (g_env _ G'))| |]; eauto).
+    subst w2. congruence.
+  Qed.
+
   Lemma uf_unions_nil_inv p p' : UFStep p [] p' -> p' = p.
   Proof. intros (E & _). simpl in E. injection E as <-. reflexivity. Qed.
 
@@ -319,5 +360,37 @@ Section WithOracle.
     - split.
       + intros v H. apply K1. apply nodup_In. exact H.
       + intros v d w Hv Hd Hi. eapply K2; [exact Hv|]. eapply (inv_idx e I); eauto.
+  Qed.
+
+  (* ---------------------------------------------------------------- histories *)
+
+  (** every state the container environment can be in: built from the empty environment by fresh
+      e-classes, hash-consing insertions of contents over canonical ids, unions of e-classes that
+      are not container ids, and rebuilds to fixpoint under any per-pass choice of strategy *)
+  Inductive Reach : cstate -> Prop :=
+  | R_init : Reach (mkCS [] empty_env [])
+  | R_fresh s : Reach s -> Reach (mkCS (cuf s ++ [length (cuf s)]) (cenv s) (pending s))
+  | R_insert s c : Reach s ->
+      (forall x, In x (rids c) -> rep (cuf s) x = x \/ In x (pending s)) ->
+      Reach (mkCS (if snd (get_or_insert (cenv s) c (length (cuf s))) =? length (cuf s)
+                   then cuf s ++ [length (cuf s)] else cuf s)
+                  (fst (get_or_insert (cenv s) c (length (cuf s)))) (pending s))
+  | R_union s a b p' : Reach s -> a < length (cuf s) -> b < length (cuf s) ->
+      ~ In (rep (cuf s) a) (live (cenv s)) -> ~ In (rep (cuf s) b) (live (cenv s)) ->
+      uf_union (cuf s) a b = Ok p' ->
+      Reach (mkCS p' (cenv s) (pending s ++ displaced (cuf s) p'))
+  | R_rebuild s strat dacc s' d : Reach s ->
+      rebuild_loop oracle (rebuild_fuel s) strat s dacc = Ok (s', d) -> Reach s'.
+
+  Theorem Reach_Good s : Reach s -> Good s.
+  Proof.
+    induction 1 as [|s _ IH|s c _ IH Hc|s a b p' _ IH La Lb Na Nb Hu|s strat dacc s' d _ IH Hl].
+    - apply Good_init.
+    - apply Good_fresh. exact IH.
+    - apply (Good_insert s c IH Hc).
+    - destruct (Good_union s a b IH La Lb Na Nb) as (p'' & Hu' & G). rewrite Hu in Hu'.
+      injection Hu' as <-. exact G.
+    - destruct (loop_spec (rebuild_fuel s) strat s dacc IH (rebuild_fuel_enough s)) as (s'' & d' & E & R).
+      rewrite Hl in E. injection E as <- <-. destruct R as (G & _). exact G.
   Qed.
 End WithOracle.
